@@ -18,8 +18,19 @@ func CaseRng(seed int64, c int) *mrand.Rand { return mrand.New(mrand.NewSource(s
 // Gen produces the configuration and history of generated case number c.
 type Gen func(r *mrand.Rand, tier string, c int, seed int64) (Cfg, []Item)
 
+// Opts: Unified = the cases are written as [ucase] terms for Check/ProducerLoopCheck.v ([UPlain] = a case of
+// Check/ProducerCheck.v, [ULoop] = a Cfg.Loop case with the per-item "production loop is running" flags).
+type Opts struct {
+	Unified bool
+}
+
 // Main is the common TestVerif body of the C01 and C04 harnesses.
 func Main(t *testing.T, prop string, gen Gen, rule string, nontrivial func(Cfg, []Item, []Obs) bool) {
+	MainOpts(t, prop, gen, rule, nontrivial, Opts{})
+}
+
+func MainOpts(t *testing.T, prop string, gen Gen, rule string, nontrivial func(Cfg, []Item, []Obs) bool, opts Opts) {
+	BubbleT = t
 	logging.SetAllLoggers(logging.LevelFatal)
 	_ = logging.Logger("verif-producer")
 	logging.SetAllLoggers(logging.LevelFatal)
@@ -69,6 +80,17 @@ func Main(t *testing.T, prop string, gen Gen, rule string, nontrivial func(Cfg, 
 		if rp.Cfg.Lazy {
 			res.Count("cfg:lazy-mode")
 		}
+		if rp.Cfg.Loop {
+			res.Count("cfg:steps-made-by-the-node's-own-AggregationLoop")
+			if rp.Cfg.Lazy {
+				res.Count("cfg:steps-made-by-the-node's-own-AggregationLoop(lazy)")
+			}
+			res.Distribution["loop:rounds"] += w.Or.Rounds
+			res.Distribution["loop:rounds-answered-by-a-sequencer-fault-or-no-batch"] += w.Or.FaultRounds
+			for _, h := range w.Or.Halts {
+				res.Count("loop:halted-after-a-round-ending-in-" + h)
+			}
+		}
 		maxH := uint64(0)
 		for i, it := range rp.History {
 			k := "item:" + it.T
@@ -82,6 +104,9 @@ func Main(t *testing.T, prop string, gen Gen, rule string, nontrivial func(Cfg, 
 					sk = "batch-empty"
 				}
 				res.Count("seq:" + sk)
+				if sk == "err" {
+					res.Count(fmt.Sprintf("seq-err:%q", seqErr(it.ErrKind, i).Error()))
+				}
 				if it.ExecErr {
 					res.Count("exec:error")
 				} else if obs[i].Call != nil {
@@ -155,6 +180,9 @@ func Main(t *testing.T, prop string, gen Gen, rule string, nontrivial func(Cfg, 
 			res.Count("history:cache-file-damaged-by-hand")
 		}
 		term := CaseCoq(rp.Cfg, rp.History, obs, lo, blocks)
+		if opts.Unified {
+			term = UnifiedCoq(rp.Cfg, term, obs)
+		}
 		if nontrivial(rp.Cfg, rp.History, obs) {
 			distinct[fmt.Sprint(rp.Cfg, rp.History)] = true
 		}
@@ -203,7 +231,12 @@ func Main(t *testing.T, prop string, gen Gen, rule string, nontrivial func(Cfg, 
 	res.Cases = len(cases)
 	header := "From Coq Require Import String NArith ZArith List Bool.\nFrom Verif Require Import Base.KV Model.Types Model.Producer Check.ProducerCheck."
 	path := filepath.Join(e.Out, "cases_"+prop+".v")
-	if err := vgen.WriteCases(path, header, nil, "pcase", cases, "mismatches"); err != nil {
+	caseType, mismatchFn := "pcase", "mismatches"
+	if opts.Unified {
+		header += "\nFrom Verif Require Import Model.ProducerLoop Check.ProducerLoopCheck."
+		caseType, mismatchFn = "ucase", "umismatches"
+	}
+	if err := vgen.WriteCases(path, header, nil, caseType, cases, mismatchFn); err != nil {
 		t.Fatal(err)
 	}
 	res.CaseFiles = []string{path}
